@@ -38,9 +38,11 @@ def r_resolver(root):
             w.parser[".metamodel"] = w.mm
             w.model = HS({".kind": "model", "._tx_filename": "model.file", "._tx_parser": w.parser, "._tx_metamodel": w.mm})
             w.other_model = HS({".kind": "model", "._tx_filename": "other.file"})
-            w.schedule = {}; w.round = 0; w.targets = {}; w.asked = []
+            w.schedule = {}; w.round = 0; w.targets = {}; w.asked = []; w.failing = {}
             def provider(obj, attr, crossref):
                 w.asked.append(crossref[".obj_name"])
+                if crossref[".obj_name"] in w.failing:
+                    r_ = pyeval.Raised("TextXSemanticError"); r_.bases = ["TextXSemanticError", "TextXError", "Exception"]; r_.value = w.failing[crossref[".obj_name"]]; raise r_
                 if w.schedule.get(crossref[".obj_name"], 0) > w.round: return HS({".__class__": POST, ".kind": "postponed"})
                 return w.targets.get(crossref[".obj_name"])
             w.provider = pyeval.PyFn(provider)
@@ -144,4 +146,13 @@ def r_resolver(root):
         want = [("t", 7, 8, "model.file", 200, 205), ("u", 27, 28, "other.file", 300, 305)] if tools else []
         ok = k == "ret" and sorted(recs) == sorted(want) and o[".one"] is tg and o[".two"] is b_obj and o[".refs"] == [tg2]
         rep("C34", "C34.h", "tool support %s: bookkeeping of resolved references" % ("on" if tools else "off"), ok, "with textx_tools_support %s, a reference to a model object at 7, one to a builtin at 17 and a list reference at 27 into another file: the round %s and records %s; documented: %s, all three references resolved" % ("on" if tools else "off", "completes" if k == "ret" else "raises %s" % v.cls, recs, want), witness="textx_tools_support=True with builtins that are plain Python objects")
+    # ------------------------------------------------------------------ C33.d : an error raised by the scope provider
+    for what, given, want in (("without any location", (None, None, None), (("line", 30), ("col", 30), "model.file")), ("located in a nested model loaded from a string (no file name)", (3, 4, None), (3, 4, None)),
+                              ("located by file only", (None, None, "inner.file"), (None, None, "inner.file")), ("fully located", (3, 4, "inner.file"), (3, 4, "inner.file"))):
+        w = World(); cls = HS({".__name__": "Cls"}); o = w.obj(one=None); err = {".cls": "TextXSemanticError", ".message": "from the provider", ".line": given[0], ".col": given[1], ".filename": given[2], ".err_type": None}
+        w.failing = {"bad": err}; w.parser["._crossrefs"] = [(o, w.attr("one", False), w.ref("bad", 30, cls))]
+        k, v = w.step()
+        got = (err[".line"], err[".col"], err[".filename"])
+        okx = k == "raise" and getattr(v, "value", None) is err and got == want
+        rep("C33", "C33.d", "a provider's TextXError %s" % what, okx, "a scope provider raising a TextXError %s (line, col, filename = %r): the resolver %s and the error then carries %r; documented: the same error propagates, located at the reference (line/col of its position by the model's parser, the model's file) only when it carries no location at all, otherwise unchanged" % (what, given, "re-raises it" if k == "raise" and getattr(v, "value", None) is err else ("raises another error" if k == "raise" else "swallows it"), got))
     return inst, out
